@@ -299,7 +299,7 @@ def check(ctx):
     units += [("w2", CELLS_FRAGMENTS[:8] + ["", "7"], ("h", "g"), first) for first in CELLS_FRAGMENTS[:8] + ["", "7"]]
     units.append(("empty",))
     agg = core.merge_all(core.pmap(run_unit, units))
-    agg.notes["bound"] = f"width-1 grids over {len(cells1)} cell texts, width-2 grids over {len(cells2)}; <=2 records"
+    agg.notes["bound"] = f"width-1 grids over {len(cells1)} cell texts, width-2 grids over {len(cells2)}; <=2 records; inputs: StringIO, path, handle, handle advanced by readline / by next(), pipe"
     agg.notes["exhaustive"] = True
     return agg
 
